@@ -360,6 +360,83 @@ def noise_src_rule(ctx):
     return res
 
 
+def _strip_replication(e):
+    """x under repeat_rows / repeat_interleave / leading-dim wrappers (row bookkeeping)."""
+    while True:
+        e = strip_wrappers(e)
+        if isinstance(e, ast.Call):
+            last = norm_text(e.func).split(".")[-1]
+            if last == "repeat_rows" and e.args:
+                e = e.args[0]
+                continue
+            if last == "repeat_interleave":
+                e = e.func.value if isinstance(e.func, ast.Attribute) and norm_text(e.func.value) != "torch" else (e.args[0] if e.args else e)
+                continue
+        return e
+
+
+def slp_ctx_rule(ctx):
+    """Sampling and density must condition the same model: in _log_prob, _sample and
+    sample_and_log_prob the base distribution and the transform receive one and the same
+    function of the context argument (modulo row replication)."""
+    from ..symexp import uwalk
+
+    p = ctx.p
+    flow = _flow(p)
+    res = RuleResult("SLP-CTX", "Flow._log_prob, _sample and sample_and_log_prob hand one and the same function of the context (the embedding) to the base distribution and to the transform")
+    seen = {}  # canonical form -> first (method, role, node)
+    n = 0
+    for mname in ("_log_prob", "_sample", "sample_and_log_prob"):
+        fi = flow.methods.get(mname)
+        if fi is None:
+            raise AnalysisIncomplete("Flow.%s missing" % mname)
+        for path in paths_of(fi.node):
+            if path.kind != "return":
+                continue
+            for node in uwalk(path.ret):
+                if not isinstance(node, ast.Call):
+                    continue
+                ch = attr_chain(node.func) or ""
+                if ch.startswith("self._distribution."):
+                    role = "base"
+                    cpos = 1
+                elif ch in ("self._transform", "self._transform.forward", "self._transform.inverse"):
+                    role = "transform"
+                    cpos = 1
+                else:
+                    continue
+                cx = _kwarg(node, "context", cpos)
+                if cx is None:
+                    if role == "transform":
+                        res.fail(Finding("SLP-CTX", fi.module, fi.qualname, path.ret_node, "the transform is called without the context in %s" % mname))
+                    continue  # an unconditional base: nothing to agree on
+                form = canon_text(_strip_replication(cx))
+                n += 1
+                seen.setdefault(form, []).append((mname, role, fi, path.ret_node))
+    if n < 5:
+        raise AnalysisIncomplete("SLP-CTX: %d conditioned calls found (< 5)" % n)
+    if len(seen) == 1:
+        form = next(iter(seen))
+        if "context" not in form:
+            fi = flow.methods["_log_prob"]
+            res.fail(Finding("SLP-CTX", fi.module, fi.qualname, fi.node, "the conditioning value `%s` does not derive from the context argument" % form))
+        else:
+            res.ok("all %d conditioned calls receive `%s`" % (n, form))
+        return res
+    # majority form is the reference; report each deviating call once
+    ref = max(seen, key=lambda k: len(seen[k]))
+    done = set()
+    for form, uses in seen.items():
+        if form == ref:
+            continue
+        for mname, role, fi, node in uses:
+            if (mname, role, form) in done:
+                continue
+            done.add((mname, role, form))
+            res.fail(Finding("SLP-CTX", fi.module, fi.qualname, node, "%s conditions the %s on `%s` while the other entry points use `%s`: samples and densities would belong to different conditionals" % (mname, role, form[:60], ref[:60])))
+    return res
+
+
 REPLICATE_OK = ("repeat_rows", "repeat_interleave")
 
 
@@ -680,7 +757,10 @@ register(
 
 register(
     "C04",
-    [slp_assemble_rule, noise_src_rule, ctx_pair_rule],
+    [slp_assemble_rule, noise_src_rule, slp_ctx_rule, ctx_pair_rule],
+    "SLP-CTX: the context expression handed to the base distribution and to the transform on every returning path of "
+    "Flow._log_prob, _sample and sample_and_log_prob, normalised modulo row replication, must be one single function of the "
+    "context argument (today self._embedding_net(context)); a deviating entry point scores or draws under a different conditional. "
     "SLP-ASSEMBLE: symbolic expansion of Flow.sample_and_log_prob: on every returning path the pair is (inverse(noise)[0], "
     "+base_log_prob - inverse(noise)[1]) with noise and base_log_prob the two components of one sample_and_log_prob(num_samples) "
     "call of the base and both inverse components from one call. NOISE-SRC: Flow._sample inverts base.sample(num_samples...). "
